@@ -85,6 +85,8 @@ fn render(s: &Session) -> Rendered {
             }
         } else if inp.pre.is_empty() {
             lines.push("1 + 1".to_string());
+            // the filler is an expression: `ans` is a plain number from here on
+            work.ans = Some(Ty::Scalar);
         }
         let names: Vec<String> = work.all_names().into_iter().filter(|n| !before_names.contains(n)).collect();
         let modules: Vec<String> = work.modules.iter().filter(|m| !before_modules.contains(m)).cloned().collect();
@@ -134,6 +136,14 @@ fn check(s: &Session, st: &mut Stats) -> CheckResult {
     let r = render(s);
     let mut a = prelude();
     let mut b = prelude();
+    // sessions with a failing input that mentions a currency run with on-demand loading of the
+    // currency module, as the command-line tool does (exchange rates: numbat's test rates)
+    let on_demand = r.inputs.iter().any(|i| i.1.is_some() && i.3.iter().any(|m| m == "units::currencies"));
+    if on_demand {
+        a.load_currency_module_on_demand(true);
+        b.load_currency_module_on_demand(true);
+        st.label("on-demand-currency-loading");
+    }
     let mut history: Vec<String> = vec![];
     let mut failed_names: Vec<String> = vec![];
     let mut failed_modules: Vec<String> = vec![];
@@ -177,6 +187,13 @@ fn check(s: &Session, st: &mut Stats) -> CheckResult {
                     failed_names.push("zz_bad".to_string());
                 }
                 failed_modules.extend(modules.iter().cloned());
+                if on_demand && session_digest(&a).contains_key("fn:exchange_rate") && !session_digest(&b).contains_key("fn:exchange_rate") {
+                    // loading on demand is a cache: the module stays loaded after the failing input,
+                    // and in the session that never saw that input it would be loaded by the first
+                    // input that needs it. Load it there explicitly, so that both sessions are
+                    // compared in the state "currency module loaded".
+                    let _ = eval(&mut b, "use units::currencies");
+                }
             }
             None => {
                 let ob = eval(&mut b, src);
@@ -262,7 +279,7 @@ fn check(s: &Session, st: &mut Stats) -> CheckResult {
 fn run(cfg: &Cfg) -> Report {
     let mut rep = Report::new(
         cfg,
-        "proptest session histories of 3-13 inputs; an input is 0-3 successful statements (typed definitions and redefinitions of variables and functions, units, base units with new dimensions, derived dimensions, structs, imports of non-prelude modules, expressions, prints, ans/_) optionally followed by a failing statement of one of 19 kinds (unknown module, 4 parse errors, name clash with a prelude unit, reserved identifier, 4 type errors, division by zero, failed assert/assert_eq, error(), run-time error inside a called function, 3 run-time failures in inputs that define nothing, 3 clashes with a variable, function or unit the session itself defined) and further statements; a quarter of the failing inputs are wrapped into an `ans` probe (an expression input before, an expression in front of the failing statement, a use of ans/_ in the next input). Oracle (metamorphic + invariant): the history is run on session A and, with the failing inputs deleted, on session B; every failing input fails in the same way on a throw-away copy of B; after every input the complete definition digests agree (function signatures, unit definitions, dimensions, raw values of all variables), every successful input yields the same result/prints/error kind in A and B, and at the end every name defined inside a failed input gives the same probe result in both and every module imported inside a failed input imports with the same effect. non-trivial = a failing input with earlier successful statements, followed by a later input; distinct = the rendered history",
+        "proptest session histories of 3-13 inputs; an input is 0-3 successful statements (typed definitions and redefinitions of variables and functions, units, base units with new dimensions, derived dimensions, structs, imports of non-prelude modules, expressions, prints, ans/_) optionally followed by a failing statement of one of 29 kinds (unknown module, 4 parse errors, name clash with a prelude unit, reserved identifier, 4 type errors, division by zero, failed assert/assert_eq, error(), run-time error inside a called function, 3 run-time failures in inputs that define nothing, 3 clashes with a variable, function or unit the session itself defined, 6 clashes that only the type checker notices (dimension defined twice, `let` named like a prelude or session function, `fn` named like a prelude or session variable), 4 type errors in inputs that mention a currency unit — such sessions run with on-demand loading of the currency module as the CLI does, and the session that never saw the failing input imports the module explicitly at that point) and further statements; a quarter of the failing inputs are wrapped into an `ans` probe (an expression input before, an expression in front of the failing statement, a use of ans/_ in the next input). Oracle (metamorphic + invariant): the history is run on session A and, with the failing inputs deleted, on session B; every failing input fails in the same way on a throw-away copy of B; after every input the complete definition digests agree (function signatures, unit definitions, dimensions, raw values of all variables), every successful input yields the same result/prints/error kind in A and B, and at the end every name defined inside a failed input gives the same probe result in both and every module imported inside a failed input imports with the same effect. non-trivial = a failing input with earlier successful statements, followed by a later input; distinct = the rendered history",
     );
     let cases = cfg.tier.pick(500u32, 6000u32);
     rep.absorb(run_proptest(
